@@ -343,7 +343,7 @@ def run_case(case, ctx):
                                           m[1] + " (and the whole stage raises %s)" % exc_label(ex),
                                           step=st, stage=k, lazy_chunks=str(d.chunks))
                             return
-                        ctx.op("compute-refused:%s:%s" % (name, exc_label(ex)))
+                        ctx.count("compute-refused:%s:%s" % (O.variant(st), exc_label(ex)))
                         ctx.count("compute_refused")
                         ctx.nontrivial = ctx.nontrivial and k >= 3
                         if k < 2:
@@ -389,6 +389,6 @@ def run_case(case, ctx):
                 k, st, ex = build_failure
                 ctx.count("build_refused")
                 why = "dask could not build %s (%s): %s" % (O.variant(st), _features(st, stages[-1], exp[k - 1]), exc_label(ex))
-                ctx.op("build-refused:%s:%s" % (O.variant(st), exc_label(ex)))
+                ctx.count("build-refused:%s:%s" % (st["op"], exc_label(ex)))
                 if len(stages) < 2 or isinstance(ex, NotImplementedError):
                     ctx.unsupported(why)
